@@ -47,6 +47,9 @@ void h_make_fullpath(void)
 	name_input();
 	fail = nondet_bool();
 	r = cfg_make_fullpath(dir, in_name);
+#ifdef CFGV_NO_ALLOC_FAILURE
+	CHECK("C17", r != NULL, "a directory and a name give a path (no allocation failure in this unit)");
+#endif
 	if (r) {
 		size_t ld = strlen(dir), lf = strlen(in_name);
 		_Bool eq = strlen(r) == ld + 1 + lf && r[ld] == '/';
@@ -139,6 +142,9 @@ void h_tilde_expand(void)
 	in_pw_known = nondet_bool(); g_pwuid_calls = g_pwnam_calls = 0; cfgv_dup_fail = 0;
 	n = strlen(in_name);
 	r = cfg_tilde_expand(in_name);
+#ifdef CFGV_NO_ALLOC_FAILURE
+	CHECK("C17", r != NULL, "every name expands to a string (no allocation failure in this unit)");
+#endif
 	if (r == NULL) { CANARY("tilde_expand"); return; }      /* allocation failure (C18): nothing to release */
 	CHECK("C17", r != in_name, "the expanded name is a fresh string");
 	if (in_name[0] != '~') {
@@ -179,6 +185,9 @@ void h_add_searchpath(void)
 		name_input();
 		__CPROVER_assume(in_name[0] != '~');
 		rc = cfg_add_searchpath(&cfg, in_name);
+#ifdef CFGV_NO_ALLOC_FAILURE
+		CHECK("C17", cfgv_dup_fail || rc == CFG_SUCCESS, "adding a directory succeeds (no allocation failure in this unit)");
+#endif
 		if (rc == CFG_SUCCESS) {
 			CHECK("C17", cfg.path != NULL && cfg.path != before && cfg.path->next == before, "a new directory is put in front of the list (lookups walk it oldest first)");
 			CHECK("C17,C16", cfg.path->dir != NULL && cfg.path->dir != in_name && strcmp(cfg.path->dir, in_name) == 0, "the node holds a private, tilde-expanded copy of the directory");
